@@ -207,3 +207,160 @@ def inline_new_helpers(raw):
         for im in raw["impls"]:
             im["methods"] = [m for m in im["methods"] if m["did"] not in removed]
     return notes
+
+
+# ---------------------------------------------------------------------------------------------------------------
+# Combinator closures: `opt.map(|x| f(x))` and `match opt { Some(x) => Some(f(x)), None => None }` are the same
+# program.  A closure handed to one of the Option/Result combinators below is spliced into the caller as the explicit
+# match when it does real work (calls a function of this crate); trivial projections (`|a| a.0`) and the ubiquitous
+# error plumbing (`map_err`, `ok_or_else`) are left alone.  Rules then see one shape for both spellings.
+
+_OPT = "std::option::Option"
+_RES = "std::result::Result"
+# name suffix -> (scrutinee adt, variant on which the closure runs, closure takes the payload?, how to wrap the
+#                closure's result, what the other side yields)
+ADAPTERS = {
+    "option::Option::map":            (_OPT, "Some", True,  ("wrap", _OPT, "Some"), ("agg", _OPT, "None")),
+    "option::Option::and_then":       (_OPT, "Some", True,  ("plain",),             ("agg", _OPT, "None")),
+    "option::Option::map_or":         (_OPT, "Some", True,  ("plain",),             ("arg", 1)),
+    "option::Option::unwrap_or_else": (_OPT, "None", False, ("plain",),             ("payload", "Some")),
+    "result::Result::map":            (_RES, "Ok",   True,  ("wrap", _RES, "Ok"),   ("rewrap", _RES, "Err")),
+    "result::Result::and_then":       (_RES, "Ok",   True,  ("plain",),             ("rewrap", _RES, "Err")),
+}
+_VIX = {(_OPT, "None"): 0, (_OPT, "Some"): 1, (_RES, "Ok"): 0, (_RES, "Err"): 1}
+
+
+def _strip_generics(p):
+    out, depth = [], 0
+    i = 0
+    while i < len(p):
+        if p.startswith("::<", i):
+            depth += 1
+            i += 3
+            continue
+        ch = p[i]
+        if depth:
+            if ch == "<":
+                depth += 1
+            elif ch == ">":
+                depth -= 1
+            i += 1
+            continue
+        out.append(ch)
+        i += 1
+    return "".join(out)
+
+
+def _does_real_work(cb):
+    for bl in cb["blocks"]:
+        t = bl["term"]
+        if t["k"] == "call" and t.get("callee") and (t["callee"].get("local") or t["callee"].get("resolved_local")):
+            return True
+    return False
+
+
+def _payload_place(local, adt, variant, ty):
+    pl = {"l": local, "p": [{"k": "downcast", "i": _VIX[(adt, variant)], "v": variant, "adt": adt},
+                           {"k": "field", "i": 0, "n": "0", "adt": adt, "variant": variant}]}
+    if ty is not None:
+        pl["p"][1]["ty"] = ty
+        pl["ty"] = ty
+    return pl
+
+
+def _agg(adt, variant, ops):
+    return {"k": "aggregate", "agg": "adt", "adt": adt, "variant": variant, "variant_index": _VIX[(adt, variant)], "is_enum": True,
+            "fields": ["0"] if ops else [], "ops": ops}
+
+
+def splice_combinator_closures(raw):
+    types = raw["types"]
+    isize_ix = next((i for i, t in enumerate(types) if t.get("s") == "isize"), None)
+    if isize_ix is None:
+        return []
+    by_did = {b["did"]: b for b in raw["bodies"]}
+    notes = []
+    serial = 100000
+    for caller in list(raw["bodies"]):
+        bi = 0
+        while bi < len(caller["blocks"]) and len(caller["blocks"]) < MAX_BLOCKS:
+            blk = caller["blocks"][bi]
+            t = blk["term"]
+            bi += 1
+            if t["k"] != "call" or not t.get("callee") or blk.get("cleanup") or t.get("target") is None or t["dest"].get("p"):
+                continue
+            name = _strip_generics(t["callee"].get("path") or "")
+            key = next((k for k in ADAPTERS if name == k or name.endswith("::" + k)), None)
+            if key is None:
+                continue
+            adt, run_on, takes_payload, wrap, other = ADAPTERS[key]
+            args = t["args"]
+            scrut, clos = args[0], args[-1]
+            if scrut.get("k") not in ("move", "copy") or scrut["place"].get("p") or clos.get("k") not in ("move", "copy") or clos["place"].get("p"):
+                continue
+            # the closure value is built in this function by a single aggregate
+            cl_local = clos["place"]["l"]
+            defs = [s for b2 in caller["blocks"] if not b2.get("cleanup") for s in b2["stmts"] if s["k"] == "assign" and not s["place"].get("p") and s["place"]["l"] == cl_local]
+            if len(defs) != 1 or defs[0]["rv"].get("agg") != "closure":
+                continue
+            cb = by_did.get(defs[0]["rv"].get("closure_did"))
+            if cb is None or not _does_real_work(cb) or cb["did"] == caller["did"]:
+                continue
+            if cb["arg_count"] != (2 if takes_payload else 1):
+                continue
+            s_local = scrut["place"]["l"]
+            s_ty = types[caller["locals"][s_local]["ty"]]
+            targs = [a for a in s_ty.get("args", []) if isinstance(a, int)]
+            span = t["span"]
+            # new locals
+            base = len(caller["locals"])
+            caller["locals"].append({"ty": isize_ix})                        # discriminant
+            caller["locals"].append({"ty": cb["locals"][1]["ty"]})           # closure environment
+            caller["locals"].append({"ty": cb["locals"][0]["ty"]})           # closure result
+            d_l, e_l, r_l = base, base + 1, base + 2
+            p_l = None
+            if takes_payload:
+                caller["locals"].append({"ty": cb["locals"][2]["ty"]})
+                p_l = base + 3
+            env_ty = types[cb["locals"][1]["ty"]]
+            nb = len(caller["blocks"])
+            hit, wrapb, miss = nb, nb + 1, nb + 2
+            dest = t["dest"]
+            cont = t["target"]
+            # scrutinise
+            blk["stmts"].append({"k": "assign", "place": {"l": d_l}, "rv": {"k": "discr", "place": {"l": s_local}}, "span": span})
+            run_v = _VIX[(adt, run_on)]
+            blk["term"] = {"k": "switch", "discr": {"k": "move", "place": {"l": d_l}}, "values": [run_v], "targets": [hit], "otherwise": miss, "span": span}
+            # the side on which the closure runs
+            hstm = []
+            if takes_payload:
+                hstm.append({"k": "assign", "place": {"l": p_l}, "rv": {"k": "use", "op": {"k": "move", "place": _payload_place(s_local, adt, run_on, cb["locals"][2]["ty"])}}, "span": span})
+            if env_ty.get("k") == "ref":
+                hstm.append({"k": "assign", "place": {"l": e_l}, "rv": {"k": "ref", "mut": bool(env_ty.get("mut")), "place": {"l": cl_local}}, "span": span})
+            else:
+                hstm.append({"k": "assign", "place": {"l": e_l}, "rv": {"k": "use", "op": {"k": "move", "place": {"l": cl_local}}}, "span": span})
+            call_args = [{"k": "move", "place": {"l": e_l}}] + ([{"k": "move", "place": {"l": p_l}}] if takes_payload else [])
+            hterm = {"k": "call", "args": call_args, "dest": {"l": r_l}, "target": wrapb, "unwind": t.get("unwind"), "span": span, "fn_span": span,
+                     "func": {"k": "const"}, "callee": {"path": cb["path"], "did": cb["did"], "local": True, "name": ""}}
+            caller["blocks"].append({"stmts": hstm, "term": hterm})
+            # wrap the closure's result
+            if wrap[0] == "wrap":
+                rv = _agg(wrap[1], wrap[2], [{"k": "move", "place": {"l": r_l}}])
+            else:
+                rv = {"k": "use", "op": {"k": "move", "place": {"l": r_l}}}
+            caller["blocks"].append({"stmts": [{"k": "assign", "place": dict(dest), "rv": rv, "span": span}], "term": {"k": "goto", "target": cont, "span": span}})
+            # the other side
+            if other[0] == "agg":
+                rv2 = _agg(other[1], other[2], [])
+            elif other[0] == "arg":
+                rv2 = {"k": "use", "op": copy.deepcopy(args[other[1]])}
+            elif other[0] == "payload":
+                rv2 = {"k": "use", "op": {"k": "move", "place": _payload_place(s_local, adt, other[1], targs[0] if targs else None)}}
+            else:  # rewrap the untouched variant
+                ety = targs[1] if len(targs) > 1 else None
+                rv2 = _agg(other[1], other[2], [{"k": "move", "place": _payload_place(s_local, adt, other[2], ety)}])
+            caller["blocks"].append({"stmts": [{"k": "assign", "place": dict(dest), "rv": rv2, "span": span}], "term": {"k": "goto", "target": cont, "span": span}})
+            serial += 1
+            _inline_one(raw, caller, hit, cb, serial)
+            notes.append("closure %s passed to %s was spliced into %s as the explicit match" % (cb["path"], key.split("::")[-1], caller["path"]))
+    return notes
